@@ -314,6 +314,21 @@ def rule_play(ctx):
         ctx.ob('C12.play', f'{bi_.name}:{nm}:defined', nm in bi_.functions, f'builtins.{nm} must exist', None, bi_, nontrivial=False)
 
 
+def rule_quant(ctx):
+    ctx.rule('C12.play', 'every spelling of a quant (number, pair, Quant object) reaches next_time_on_grid with the same values: as_quant '
+                         'builds the Quant from the given numbers without rounding them')
+    q = ctx.repo.cls('sc3.base.clock:Quant')
+    f = q.methods['as_quant']
+    p = f.params[1]
+    rounders = [norm(c)[:50] for c in U.calls(f.node) if (U.method_name(c) or U.call_name(c) or '').split('.')[-1] in
+                ('ceil', 'floor', 'round', 'roundup', 'trunc', 'int')]
+    builds = [norm(c) for c in U.calls(f.node) if norm(c.func) == 'cls']
+    ok = not rounders and f'cls({p})' in builds and f'cls(*{p})' in builds
+    ctx.ob('C12.play', f'{f.fq}:passes-numbers-through', ok,
+           f'as_quant builds its result with {builds}{" and rounds with " + str(rounders) if rounders else ""}: a bare number must be passed on '
+           f'as it is (play(r, 0.5) and play(r, Quant(0.5)) must land on the same grid)', f.node, f.module)
+
+
 def rule_meter(ctx):
     ctx.rule('C12.rebase', 'changing beats_per_bar re-bases the bar map like a tempo change re-bases the beat map: the new base bar is the '
                            '(rounded) bar of the current beat on the old map, computed before any map field is overwritten; '
@@ -351,6 +366,7 @@ def run(ctx):
     sub_c05 = SubCtx(ctx, 'C12.wake', "beats advance at the current tempo only if every wake-up site re-schedules from the scheduled beat converted with the clock's current map, as decided for C05")
     c05.rule_taint(sub_c05)
     rule_meter(ctx)
+    rule_quant(ctx)
     rule_inv(ctx)
     rule_affine(ctx)
     rule_rebase(ctx)
@@ -358,6 +374,9 @@ def run(ctx):
 
 
 MUTANTS = [
+    dict(rule='C12.play', name='a bare fractional quant is rounded up (seed C12-g)', file='sc3/base/clock.py',
+         old="        elif isinstance(quant, (int, float)):\n            quant = cls(quant)",
+         new="        elif isinstance(quant, (int, float)):\n            quant = cls(quant if quant == float('inf') else bi.ceil(quant))"),
     dict(rule='C12.rebase', name='tempo setter pivots on the cached beat of the last wake-up (seed C12-f)', file='sc3/base/clock.py',
          old="        # TempoClock::SetTempoAtBeat\n        beats = self.beats\n", new="        # TempoClock::SetTempoAtBeat\n        beats = self._beats if _libsc3.main.current_tt._clock is self else self.beats\n"),
     dict(rule='C12.rebase', name='meter setter moves the base bar beat before computing the base bar', file='sc3/base/clock.py',
